@@ -1,7 +1,7 @@
 use crate::{
     config::{CompressionConfig, DatabaseConfig, InnerCipherConfig, KdfConfig, OuterCipherConfig},
     crypt::calculate_sha256,
-    db::{Database, Entry, Group, NodeRefMut, Value},
+    db::{Database, Entry, Group, Node, Value},
     error::{DatabaseIntegrityError, DatabaseKeyError, DatabaseOpenError},
     format::DatabaseVersion,
     key::DatabaseKey,
@@ -92,8 +92,9 @@ fn collapse_tail_groups(branch: &mut Vec<Group>, level: usize, root: &mut Group)
     }
 }
 
-// A map from a GroupId to a path identifying (by name) a group in the group tree.
-type GidMap = HashMap<u32, Vec<String>>;
+// A map from a GroupId to a path identifying (by child index) a group in the group tree.
+// Group names are not unique, so a path of names could lead to a different group.
+type GidMap = HashMap<u32, Vec<usize>>;
 
 fn parse_groups(
     root: &mut Group,
@@ -101,12 +102,12 @@ fn parse_groups(
     data: &mut &[u8],
 ) -> Result<GidMap, DatabaseIntegrityError> {
     // Loop over group TLVs
-    let mut gid_map: HashMap<u32, Vec<String>> = HashMap::new(); // the gid to group path map
+    let mut gid_map: GidMap = HashMap::new(); // the gid to group path map
     let mut branch: Vec<Group> = Vec::new(); // the current branch in the group tree
     let mut group: Group = Default::default(); // the current group (will be added as a leaf of the branch)
     let mut level: Option<u16> = None; // the current group's level
     let mut gid: Option<u32> = None; // the current group's id
-    let mut group_path: Vec<String> = Vec::new(); // the current group path
+    let mut group_path: Vec<usize> = Vec::new(); // the current group path
     let mut num_groups = 0; // the total number of parsed groups
     while num_groups < header_num_groups as usize {
         // Read group TLV
@@ -154,7 +155,9 @@ fn parse_groups(
                     collapse_tail_groups(&mut branch, level, root);
                 }
                 if level == branch.len() {
-                    group_path.push(group.name.clone());
+                    // the group will become the next child of its parent
+                    let parent: &Group = branch.last().unwrap_or(root);
+                    group_path.push(parent.children.len());
                     branch.push(group);
                 } else {
                     // Level is beyond the current depth, missing intermediate levels?
@@ -250,19 +253,17 @@ fn parse_entries(
                 ensure_length(field_type, field_size, 0)?;
 
                 let group_id = gid.ok_or_else(|| DatabaseIntegrityError::MissingKDBGroupId)?;
-                let group_path: Vec<&str> = gid_map
+                let group_path = gid_map
                     .get(&group_id)
-                    .ok_or_else(|| DatabaseIntegrityError::InvalidKDBGroupId { group_id })?
-                    .into_iter()
-                    .map(|v| v.as_str())
-                    .collect();
+                    .ok_or_else(|| DatabaseIntegrityError::InvalidKDBGroupId { group_id })?;
 
-                let group = root.get_mut(group_path.as_slice());
-                let group = if let Some(NodeRefMut::Group(g)) = group {
-                    g
-                } else {
-                    panic!("Follow group_path")
-                };
+                let mut group: &mut Group = root;
+                for index in group_path {
+                    group = match group.children.get_mut(*index) {
+                        Some(Node::Group(g)) => g,
+                        _ => panic!("Follow group_path"),
+                    };
+                }
 
                 group.add_child(entry);
                 entry = Default::default();
